@@ -1170,6 +1170,9 @@ func (ex *Exec) evalSpecFunc(name string, call *ast.CallExpr, st *State) []Value
 		a := ex.eval(call.Args[0], st)
 		b := ex.eval(call.Args[1], st)
 		return []Value{boolV(mkAnd(mkEq(a.L[".ref"], b.L[".ref"]), mkEq(a.L[".off"], b.L[".off"]), mkEq(a.L[".len"], b.L[".len"]), mkEq(a.L[".cap"], b.L[".cap"])))}
+	case "capof", "lenof":
+		a := ex.eval(call.Args[0], st)
+		return []Value{scalarV(types.Typ[types.Int], a.L["."+strings.TrimSuffix(name, "of")])}
 	case "regionof":
 		a := ex.eval(call.Args[0], st)
 		return []Value{scalarV(mathintType, a.L[".ref"])}
